@@ -275,7 +275,7 @@ def first_repo_frame(diag):
 
 def crash_key(diag, status):
     """(key, summary) for an observation that did not finish normally."""
-    a = re.search(rb"([\w/.]+):(\d+): (\w+): Assertion `([^']*)' failed", diag)
+    a = re.search(rb"([\w/.]{1,200}):(\d+): (\w+): Assertion `([^']*)' failed", diag) if b"Assertion `" in diag else None
     if a:
         return "%s:assert" % a.group(3).decode(), "assertion `%s' failed in %s (%s:%s): the process aborts" % (
             a.group(4).decode("latin-1"), a.group(3).decode(), a.group(1).decode(), a.group(2).decode())
@@ -293,7 +293,7 @@ def crash_key(diag, status):
             return "stack-overflow:%s" % fn, "stack overflow (recursion) in %s" % fn
         key = "%s:%s" % (fn, kind)
         return KEY_ALIAS.get(key, key), "AddressSanitizer %s in %s (%s:%d)" % (kind, fn, fr[1] if fr else "?", fr[2] if fr else 0)
-    u = re.search(rb"([\w/.]+):(\d+):\d+: runtime error: ([^\n]*)", diag)
+    u = re.search(rb"^([\w/.]{1,200}):(\d+):\d+: runtime error: ([^\n]*)", diag, re.M) if b": runtime error: " in diag else None
     if u:
         msg = u.group(3).decode("latin-1")
         kind = "null-deref" if "null pointer" in msg else "ubsan-" + slug(msg, 3)
@@ -303,10 +303,6 @@ def crash_key(diag, status):
         if fn == "symtab_add_matchbind_from_matchbind_list" and kind == "null-deref" and b"struct enumerator" in u.group(3):
             return "tcmatch:null-enumerator", "NULL enumerator dereferenced in %s (%s:%s)" % (fn, src, u.group(2).decode())
         return "%s:%s" % (fn, kind), "UBSan: %s in %s (%s:%s)" % (msg, fn, src, u.group(2).decode())
-    a = re.search(rb"([\w/.]+):(\d+): (\w+): Assertion `([^']*)' failed", diag)
-    if a:
-        return "%s:assert" % a.group(3).decode(), "assertion `%s' failed in %s (%s:%s)" % (
-            a.group(4).decode("latin-1"), a.group(3).decode(), a.group(1).decode(), a.group(2).decode())
     if status == "timeout":
         return None, "timeout"
     fl = re.search(rb"(input in flex scanner failed|flex scanner jammed|fatal flex scanner internal error[^\n]*|"
